@@ -360,6 +360,8 @@ class CFG:
                 roots = [i for it in root.items for i in (it.context_expr, it.optional_vars) if i is not None]
             elif n.kind == "handler":
                 roots = [root.type] if root.type is not None else []
+            elif isinstance(root, (ast.FunctionDef, ast.AsyncFunctionDef, ast.ClassDef)):
+                roots = list(root.decorator_list)
             else:
                 roots = [root]
             for r in roots:
@@ -379,6 +381,8 @@ class CFG:
                 roots = [n.ast.iter, n.ast.target]
             elif n.kind == "with":
                 roots = [i for it in n.ast.items for i in (it.context_expr, it.optional_vars) if i is not None]
+            elif isinstance(n.ast, (ast.FunctionDef, ast.AsyncFunctionDef, ast.ClassDef)):
+                roots = list(n.ast.decorator_list)  # the body belongs to the nested scope
             else:
                 roots = [n.ast]
             if any(pred(x) for r in roots for x in walk_local(r)):
@@ -530,7 +534,9 @@ class CFG:
         if to is None:
             to = {self.exit} | ({self.raise_exit} if exc else set())
         ok = None if exc else (lambda a, b, l: l != "exc")
-        starts = [s for s in srcs]
+        starts = [s for s in srcs if s not in via]  # a source that is itself a via node is satisfied
+        if not starts:
+            return None
         return self.path(starts, to, avoid=via, edge_ok=ok, strict=strict)
 
     def must_precede(self, first: Iterable[int], then: Iterable[int], exc: bool = True) -> Optional[List[int]]:
